@@ -421,6 +421,7 @@ func checkC16(r *Run) {
 
 	c16ValidPath(r, p.Fn("p9p:ValidPath"))
 	c16Normalize(r, p.Fn("p9p:NormalizePath"))
+	c16ToWalk(r)
 	c16CreateName(r, p.Fn("p9p:CreateName"))
 	c16WalkName(r, p.Fn("p9p:WalkName"))
 	n := 0
@@ -754,4 +755,55 @@ func c16WalkName(r *Run, fn *ssa.Function) {
 		// failure: non-nil error
 		r.Ok("result", "WalkName: rejection returns an error", ret.Pos())
 	}
+}
+
+// ToWalk: steps are handed out (nil error) only when NormalizePath accepted the names (its count of leading '..' is
+// not negative), and for an absolute path only when that count is zero (nothing may climb above the root).
+func c16ToWalk(r *Run) {
+	p := r.P
+	fn := p.Fn("p9p:ToWalk")
+	if fn == nil {
+		r.Undecided("result", "ToWalk", token.NoPos, "anchor not found")
+		return
+	}
+	fa := p.FA(fn)
+	nps := findCalls(fn, "p9p.NormalizePath")
+	abs := findCalls(fn, "path.IsAbs")
+	if len(nps) != 1 {
+		r.Bad("result", "ToWalk: normalises with NormalizePath", fn.Pos(), fmt.Sprintf("%d NormalizePath calls", len(nps)))
+		return
+	}
+	bsp := resultN(nps[0], 1)
+	steps := resultN(nps[0], 0)
+	if bsp == nil || steps == nil {
+		r.Bad("result", "ToWalk: uses both results of NormalizePath", fn.Pos(), "the validity result of NormalizePath is ignored: invalid names are accepted")
+		return
+	}
+	lb := fa.Lin(bsp)
+	n := 0
+	for _, ret := range returnsOf(fn) {
+		if len(ret.Results) != 3 || !isNilConst(ret.Results[2]) {
+			continue
+		}
+		n++
+		facts := fa.FactsAt(ret, lb)
+		okValid := Entails(facts, lb.Scale(-1)) // 0 <= bsp
+		r.Check(okValid, "result", "ToWalk: success only when NormalizePath accepted the names (leading-'..' count >= 0)", ret.Pos(),
+			"ToWalk succeeds although NormalizePath reported invalid names (-1): a name containing a separator is accepted and the walk silently resolves elsewhere", factStrings(facts)...)
+		// absolute paths: on the isAbs edge the count must be zero
+		isAbsEdge := false
+		for _, cd := range condsAtInstr(ret) {
+			nc := normCond(cd)
+			for _, a := range abs {
+				if nc.V == ssa.Value(a) && nc.Truth {
+					isAbsEdge = true
+				}
+			}
+		}
+		if isAbsEdge {
+			r.Check(Entails(facts, lb), "result", "ToWalk: an absolute path succeeds only with no leading '..' left", ret.Pos(), "an absolute path may climb above the root")
+		}
+		r.Check(derivesFrom(ret.Results[1], steps, 2), "result", "ToWalk: the steps returned are NormalizePath's", ret.Pos(), "the steps returned are not the normalised names")
+	}
+	r.Floor("result", n, 2, "success returns of ToWalk")
 }
